@@ -76,6 +76,8 @@ impl ThreadPool {
         crate::verif::point("Pool_Start", self.thread_count as i64, 0);
         let (tx, rx): (Sender<Message>, Receiver<Message>) = channel();
         let rx = Arc::new(Mutex::new(rx));
+        #[cfg(humphrey_verif)]
+        crate::verif::point("Pool_Chan", Arc::as_ptr(&rx) as usize as i64, 0);
         let mut threads = Vec::with_capacity(self.thread_count);
 
         let (recovery_tx, recovery_rx): (Sender<usize>, Receiver<usize>) = channel();
@@ -156,6 +158,8 @@ impl Thread {
             .name(format!("{}", id))
             .spawn(move || {
                 let panic_marker = PanicMarker(id, panic_tx);
+                #[cfg(humphrey_verif)]
+                crate::verif::point("Worker_Spawned", id as i64, Arc::as_ptr(&rx) as usize as i64);
                 #[cfg(humphrey_verif)]
                 let rx = traced::TracedRx(rx, id);
 
